@@ -109,6 +109,7 @@ def check(case, ctx):
     ocp.save(fn)
     from rockit import Ocp
     ocp2 = Ocp.load(fn)
+    ocp3 = Ocp.load(fn)      # a second copy that is edited through its accessors before its first transcription
     os.remove(fn)
     nA = NLP(ocp)       # the original after save
     nL = NLP(ocp2)      # the loaded one
@@ -175,6 +176,33 @@ def check(case, ctx):
     d = diff_rows(rA, rR, rtol=1e-11, atol=1e-12)
     if any(d.values()):
         fails.append(Fail("rows-original-after-save", feats, summarize_diff(d)))
+    if fails:
+        return fails
+    # the loaded OCP is a usable OCP: its own symbols are recognised and edits through the accessors act like on a fresh twin
+    twin2 = build(sp).ocp
+    for so, sl in [(twin2, ocp3)] + list(zip(twin2._stages, ocp3._stages)):
+        for acc in ("states", "controls", "algebraics"):
+            for sym in getattr(sl, acc):
+                if sym not in getattr(sl, acc):
+                    fails.append(Fail("accessor-membership", dict(feats, accessor=acc), {"symbol": str(sym)}))
+        try:
+            for key in ("", "control", "control+"):
+                for a, b in zip(so.parameters[key], sl.parameters[key]):
+                    ncol = {"": 1, "control": so._method.N if hasattr(so._method, "N") else 1, "control+": (so._method.N + 1) if hasattr(so._method, "N") else 1}[key]
+                    val = 0.375 * np.ones((a.shape[0], a.shape[1] * ncol))
+                    so.set_value(a, val)
+                    sl.set_value(b, val)
+            for a, b in zip(so.controls, sl.controls):
+                if a.shape[1] == 1:
+                    so.set_initial(a, 0.25)
+                    sl.set_initial(b, 0.25)
+        except Exception as ex:
+            fails.append(Fail("edit-through-loaded-accessor", feats, {"message": str(ex).strip().splitlines()[-1][:160]}))
+    if not fails:
+        n3, nT2 = NLP(ocp3), NLP(twin2)
+        if (n3.nx, n3.np_, n3.ng) != (nT2.nx, nT2.np_, nT2.ng) or not close(n3.p0, nT2.p0, 0, 0) or not close(n3.x0, nT2.x0, 1e-13, 1e-13):
+            fails.append(Fail("edited-loaded-differs-from-edited-twin", feats, {"p_loaded": n3.p0, "p_twin": nT2.p0, "max_dx0": float(np.max(np.abs(n3.x0 - nT2.x0))) if n3.nx == nT2.nx and n3.nx else None}))
+        ctx.count("edited_loaded_compared")
     if fails:
         return fails
     # method / solver settings: the same short solver run on the loaded, the original and the untouched twin
